@@ -219,7 +219,7 @@ class VLoop(asyncio.SelectorEventLoop):
             if t is current or t.done():
                 continue
             coro = t.get_coro()
-            chain = await_chain(coro)
+            chain = [c for c in await_chain(coro) if not c.startswith("[")]
             tasks.append(
                 f"{t.get_name()}:{getattr(coro, '__qualname__', coro)!s}"
                 + (f" @ {chain[-1]}" if chain else "")
@@ -438,9 +438,11 @@ class _ConnLogHook(logging.Handler):
 
 
 def await_chain(task_or_coro, limit=25):
-    """Where a task is suspended: ``["outer (file:line)", ..., "innermost (file:line)"]``."""
+    """Where a task is suspended: ``["outer (file:line)", ..., "innermost (file:line)"]``.
+    Follows ``await other_task`` and describes the pending children of ``asyncio.gather``."""
     out = []
-    obj = task_or_coro.get_coro() if hasattr(task_or_coro, "get_coro") else task_or_coro
+    task = task_or_coro if hasattr(task_or_coro, "get_coro") else None
+    obj = task.get_coro() if task is not None else task_or_coro
     while obj is not None and len(out) < limit:
         frame = getattr(obj, "cr_frame", None) or getattr(obj, "gi_frame", None)
         if frame is not None:
@@ -450,20 +452,22 @@ def await_chain(task_or_coro, limit=25):
         nxt = getattr(obj, "cr_await", None)
         if nxt is None:
             nxt = getattr(obj, "gi_yieldfrom", None)
-        children = getattr(nxt, "_children", None)
+        if not (hasattr(nxt, "cr_frame") or hasattr(nxt, "gi_frame")):
+            break
+        obj = nxt
+    # the future the task is finally blocked on
+    waiter = getattr(task, "_fut_waiter", None) if task is not None else None
+    if waiter is not None and len(out) < limit:
+        children = getattr(waiter, "_children", None)
         if children:
-            # asyncio.gather(): describe the children that are still pending
             for ch in children:
                 if not ch.done():
                     sub = await_chain(ch, limit=limit)
                     name = ch.get_name() if hasattr(ch, "get_name") else "future"
-                    out.append(f"[gather child {name}: {' > '.join(sub[-3:])}]")
-            break
-        if nxt is not None and hasattr(nxt, "get_coro") and not hasattr(nxt, "cr_frame"):
-            # awaiting another task: continue inside it
-            out.append(f"[task {nxt.get_name()}]")
-            nxt = nxt.get_coro()
-        obj = nxt
+                    out.append(f"[gather child {name}: {' > '.join(sub[-4:])}]")
+        elif hasattr(waiter, "get_coro"):
+            out.append(f"[task {waiter.get_name()}]")
+            out.extend(await_chain(waiter, limit=limit - len(out)))
     return out
 
 
